@@ -198,6 +198,19 @@ func init() {
 		defer os.RemoveAll(scratch)
 		return strings.ReplaceAll(c16Real(fmt.Sprint(rep["fs"]), filepath.Join(scratch, "db"), int(numField(rep, "pre")), 16, int(numField(rep, "vlen"))), scratch, "<scratch>"), nil
 	}
+	replayers["failmaint15"] = func(rep map[string]interface{}) (string, error) {
+		word, err := parseWord(rep["op"])
+		if err != nil || len(word) != 1 {
+			return "", fmt.Errorf("bad op: %v", err)
+		}
+		base, err := explore.GetBase(fmt.Sprint(rep["base"]), cfgByName(fmt.Sprint(rep["cfg"])), 0)
+		if err != nil {
+			return "", err
+		}
+		explore.PinSeed(0)
+		_, bad := c15FailedMaintCase(explore.NewLocalCtx("C15"), base, word[0], int(numField(rep, "fault_at")))
+		return bad, nil
+	}
 	replayers["panic"] = replayers["word"]
 	replayers["slice14"] = func(rep map[string]interface{}) (string, error) {
 		base, err := explore.GetBase(fmt.Sprint(rep["base"]), cfgByName(fmt.Sprint(rep["cfg"])), 0)
